@@ -665,6 +665,15 @@ func (fr *Frame) loopHead(li *loopInfo, st *State, reach Term) *State {
 		d := fr.v.evalSpec(env, li.spec.Decreases.Expr)
 		li.decr0 = d.A
 	}
+	for _, inv := range li.spec.Invariants {
+		if inv.Canary {
+			continue
+		}
+		env := fr.specEnv(hs, fr.oldSt)
+		env.at = b
+		hs = fr.pinUnchanged(env, inv.Expr, hs)
+	}
+	li.headState = hs
 	return hs
 }
 
